@@ -327,20 +327,39 @@ package bkl
 //
 //@ func repeatDocMap(doc, ec, data) (docs, ecs, err)
 //@   ensures (=> (not (isErr err)) (= (rllen docs) (rllen ecs)))
+//@   ensures (=> (= (select (mapOf data) "$repeat") VAbsent)                                               [C12] [C06]
+//@              (and (not (isErr err)) (= docs (RCons doc RNil)) (= ecs (RCons ec RNil)) (= (heap Document.Data) (old (heap Document.Data)))))
+//@   ensures (=> ((_ is VInt) (select (mapOf data) "$repeat")) (and (not (isErr err))                      [C12]
+//@              (= (rllen docs) (ite (< (iv (select (mapOf data) "$repeat")) 0) 0 (iv (select (mapOf data) "$repeat"))))
+//@              (repInt (heap EvalContext.Vars) (heap Document.Data) docs ecs (old (EvalContext.Vars ec)) (VMap (store (mapOf data) "$repeat" VAbsent)) "$repeat" allocTop)))
 //
 //@ func repeatDocList(doc, ec, data) (docs, ecs, err)
 //@   ensures (=> (not (isErr err)) (= (rllen docs) (rllen ecs)))
 //
 //@ func repeatDocGen(doc, ec, v) (docs, ecs, err)
 //@   ensures (=> (not (isErr err)) (= (rllen docs) (rllen ecs)))
+//@   ensures (=> (and (not ((_ is VInt) v)) (not ((_ is VMap) v))) (= err ErrInvalidRepeat))                 [C12]
+//@   ensures (=> ((_ is VInt) v) (and (not (isErr err))                                                    [C12]
+//@              (= (rllen docs) (ite (< (iv v) 0) 0 (iv v)))
+//@              (repInt (heap EvalContext.Vars) (heap Document.Data) docs ecs (old (EvalContext.Vars ec)) (old (Document.Data doc)) "$repeat" allocTop)))
 //
 //@ func repeatDocGenFromInt(doc, ec, name, count) (docs, ecs, err)
-//@   uses rappLen
-//@   ensures (=> (not (isErr err)) (= (rllen docs) (rllen ecs)))
-//@   ensures (=> (not (isErr err)) (= (rllen docs) (ite (< count 0) 0 count)))            [C12]
+//@   uses rappLen, rlnthSnoc
+//@   preserves-existing
+//@   ensures (not (isErr err))
+//@   ensures (= (rllen docs) (rllen ecs))
+//@   ensures (= (rllen docs) (ite (< count 0) 0 count))                                                     [C12]
+//@   ensures (repInt (heap EvalContext.Vars) (heap Document.Data) docs ecs (old (EvalContext.Vars ec)) (old (Document.Data doc)) name allocTop)   [C12]
 //@   loop 1
 //@     invariant (= (rllen docs) (rllen ecs))
 //@     invariant (and (<= 0 i) (= (rllen docs) i) (or (<= i count) (= i 0)))
+//@     invariant (forall ((r Int)) (=> (< r (old allocTop)) (and (= (EvalContext.Vars r) (old (EvalContext.Vars r))) (= (Document.Data r) (old (Document.Data r)))
+//@                                                            (= (Document.Parents r) (old (Document.Parents r))) (= (Document.ID r) (old (Document.ID r))))))
+//@     invariant (forall ((j Int)) (=> (and (<= 0 j) (< j i))
+//@              (and (= (EvalContext.Vars (rlnth ecs j)) (VMap (store (mapOf (old (EvalContext.Vars ec))) name (VInt j))))
+//@                   (= (Document.Data (rlnth docs j)) (old (Document.Data doc)))
+//@                   (>= (rlnth ecs j) (old allocTop)) (< (rlnth ecs j) allocTop)
+//@                   (>= (rlnth docs j) (old allocTop)) (< (rlnth docs j) allocTop))))
 //
 //@ func repeatDocGenFromMap(doc, ec, rs) (docs, ecs, err)
 //@   uses rappLen
@@ -450,8 +469,16 @@ package bkl
 //@   decreases (- 1002 depth) 9
 //@ func process2RepeatObjMap(v, mergeFrom, mergeFromDocs, ec, k, r, depth) (res, err)
 //@   decreases (- 1002 depth) 2
+//@   ensures (=> (not ((_ is VInt) r)) (isErr err))                                                       [C12]
+//@   at call process2#1
+//@     assert (= (EvalContext.Vars ec) (VMap (store (mapOf (old (EvalContext.Vars ec@pre))) "$repeat" (VInt i))))   [C12]
+//@   at call process2#2
+//@     assert (= (EvalContext.Vars ec) (VMap (store (mapOf (old (EvalContext.Vars ec@pre))) "$repeat" (VInt i))))   [C12]
 //@ func process2RepeatObjList(v, mergeFrom, mergeFromDocs, ec, r, depth) (res, err)
 //@   decreases (- 1002 depth) 2
+//@   ensures (=> (not ((_ is VInt) r)) (isErr err))                                                       [C12]
+//@   at call process2#1
+//@     assert (= (EvalContext.Vars ec) (VMap (store (mapOf (old (EvalContext.Vars ec@pre))) "$repeat" (VInt i))))   [C12]
 
 // ------------------------------------------------------------------------------------------------- get.go (termination)
 
@@ -558,3 +585,34 @@ package bkl
 //@   call filterList#1
 //@     invariant ((_ is VList) ret)
 //@     invariant (=> (not (anyKeyL (ls l) k)) (and (= (app (ls ret) rest) (ls l)) (= ret@outer VNil) (not (anyKeyL rest k))))   [C06]
+
+// ------------------------------------------------------------------------------------------------- document.go, evalcontext.go (allocation)
+
+//@ func NewDocument(id) (res)
+//@   preserves-existing
+//@   ensures (and (>= res allocTop) (not (= res 0)))
+//@   ensures (and (= (Document.ID res) id) (= (Document.Data res) VNil) (= (Document.Parents res) RNil))
+//
+//@ func NewDocumentWithData(id, data) (res)
+//@   preserves-existing
+//@   ensures (and (>= res allocTop) (not (= res 0)))
+//@   ensures (and (= (Document.ID res) id) (= (Document.Data res) data) (= (Document.Parents res) RNil))
+//
+//@ func Document.Clone(d, suffix) (res, err)
+//@   uses rappNil, rsnocApp
+//@   preserves-existing
+//@   fresh
+//@   ensures (not (isErr err))
+//@   ensures (and (>= res allocTop) (not (= res 0)))
+//@   ensures (= (Document.Data res) (old (Document.Data d)))                                                [C12]
+//@   ensures (= (Document.Parents res) (old (Document.Parents d)))
+//@   loop 1
+//@     invariant (and (>= d2 (old allocTop)) (< d2 allocTop) (not (= d2 0)))
+//@     invariant (= (Document.Data d2) (old (Document.Data d)))
+//@     invariant (= (rapp (Document.Parents d2) rest) (old (Document.Parents d)))
+//@     invariant (forall ((r Int)) (=> (< r (old allocTop)) (and (= (Document.Parents r) (old (Document.Parents r))) (= (Document.Data r) (old (Document.Data r))) (= (Document.ID r) (old (Document.ID r))))))
+//
+//@ func EvalContext.Clone(ec) (res)
+//@   preserves-existing
+//@   ensures (and (>= res allocTop) (not (= res 0)))
+//@   ensures (= (EvalContext.Vars res) (old (EvalContext.Vars ec)))                                         [C12]
